@@ -8,7 +8,8 @@ From MHL Require Import Model.Seal Model.Commands Proofs.BaseFacts Proofs.SealFa
 
 (* THE TIE OF THE LOOKUPS TO THE SOURCE.  `find_original` and `find_first` -- which every statement below (and every statement
    about sealing and verifying elsewhere) is made with -- are not only transcribed by hand: translator/gen.py translates
-   MHLHistory.find_original_hash_entry_for_path and MHLHistory.find_first_hash_entry_for_path from the current source on
+   MHLHistory.find_original_hash_entry_for_path, MHLHistory.find_first_hash_entry_for_path and
+   MHLHistory.find_existing_hash_formats_for_path from the current source on
    every run (Gen/GeneratedFns.v: the loop over the generations, the skipped generations, the loop over the entries and
    its conditions), and these obligations say that the result is the model's function.  A change of either method's
    conditions, of what it skips, or of what it returns breaks them (or the translation, which is fail-closed). *)
@@ -21,6 +22,12 @@ Print Assumptions C04_source_find_first_is_the_models.
 Theorem C04_source_find_first_without_format_is_the_models : forall gens p, src_find_first gens p None = find_first_any gens p.
 Proof. exact src_find_first_any_is_model. Qed.
 Print Assumptions C04_source_find_first_without_format_is_the_models.
+(* ... and MHLHistory.find_existing_hash_formats_for_path (append a format when it is not yet in the list, over all entries of
+   all generations that mention the path) is `existing_formats` -- the list whose ORDER decides which recorded format is
+   re-checked when none of the requested ones was recorded (to_generate) *)
+Theorem C04_source_existing_formats_is_the_models : forall gens p, src_existing_formats gens p = existing_formats gens p.
+Proof. exact src_existing_formats_is_model. Qed.
+Print Assumptions C04_source_existing_formats_is_the_models.
 
 (* closed form of the record written for a file: the re-checked entries of recorded formats, then -- only if none of
    them failed -- the entries of the formats that are new for the path *)
